@@ -99,17 +99,17 @@ def main():
                 S["warnings_seen"][w.split(":")[1]] += 1
         n, calls = parse_case(cases[idx])
         S["levels_hist"][len(calls)] += 1
+        extreme = False
+        for tok in cases[idx].split(" T ")[0].split(" "):
+            if tok.isdigit() and int(tok) > (1 << 40):
+                v = f(tok)
+                if not math.isfinite(v) or abs(v) > 1e100:
+                    extreme = True; break
         ok = True
         if res_i.startswith("PANIC"):
             if not res_m.startswith("ERR Panic"):
                 bad(idx, "implementation panicked, model did not"); ok = False
         elif res_i != res_m:
-            extreme = False
-            for tok in cases[idx].split(" T ")[0].split(" "):
-                if tok.isdigit() and int(tok) > (1 << 40):
-                    v = f(tok)
-                    if not math.isfinite(v) or abs(v) > 1e100:
-                        extreme = True; break
             if extreme:
                 # NaN / inf / 1e300 in the input: Lean's Float has no overflow-safe hypot; the
                 # malformed stream is judged on the implementation alone (no panic, finite out).
@@ -119,6 +119,12 @@ def main():
                 S["skipped_near_threshold"] += 1
                 continue
             bad(idx, "result differs"); ok = False
+        if extreme:
+            # NaN / inf / 1e300 in the input: numbers are not compared (no overflow-safe hypot in Lean)
+            S["skipped_extreme_numeric"] = S.get("skipped_extreme_numeric", 0) + 1
+            if ok:
+                S["agreed"] += 1
+            continue
         # per-iteration numbers
         ii, im = parse_iters(its[idx]), parse_iters(iters_m)
         if ok and set(ii.keys()) != set(im.keys()):
